@@ -1,5 +1,5 @@
-(* Witnesses over the rationals (Qc): the field hypotheses are satisfiable, and the faithful models
-   of the Gaussian and bosonic post-selected heterodyne disagree on a concrete two-mode state. *)
+(* Witnesses over the rationals (Qc): the field hypotheses are satisfiable, and the model of the bosonic post-selected
+   heterodyne as it stood before fix a15d68b disagrees with the Gaussian one on a concrete two-mode state. *)
 From Coq Require Import List Arith QArith Qcanon.
 Import ListNotations.
 From SFV Require Import C06.Model.
@@ -13,16 +13,16 @@ Definition Vw : mat Qc :=
 Definition rw : vec Qc := fun _ => 0%Qc.
 
 Definition g_het := g_post_select_heterodyne Qc 0%Qc 1%Qc Qcplus Qcmult Qcminus Qcopp Qcdiv.
-Definition b_het := b_post_select_heterodyne Qc 0%Qc 1%Qc Qcplus Qcmult Qcminus Qcopp Qcdiv.
+Definition b_het_old := b_post_select_heterodyne_old Qc 0%Qc 1%Qc Qcplus Qcmult Qcminus Qcopp Qcdiv.
 
 Lemma het_gauss_value : this (fst (g_het rw Vw 0%nat 1%Qc 0%Qc) 2%nat) = (1 # 1)%Q.
 Proof. vm_compute. reflexivity. Qed.
-Lemma het_bos_value : this (fst (b_het rw Vw 0%nat 1%Qc 0%Qc) 2%nat) = (1 # 2)%Q.
+Lemma het_bos_value : this (fst (b_het_old rw Vw 0%nat 1%Qc 0%Qc) 2%nat) = (1 # 2)%Q.
 Proof. vm_compute. reflexivity. Qed.
 
-Theorem heterodyne_select_refuted :
+Theorem heterodyne_select_old_refuted :
   exists (r : vec Qc) (V : mat Qc) (k : nat) (are aim : Qc) (i : nat),
-    fst (g_het r V k are aim) i <> fst (b_het r V k are aim) i.
+    fst (g_het r V k are aim) i <> fst (b_het_old r V k are aim) i.
 Proof.
   exists rw, Vw, 0%nat, 1%Qc, 0%Qc, 2%nat. intros H.
   apply (f_equal this) in H. rewrite het_gauss_value, het_bos_value in H. discriminate.
